@@ -711,7 +711,7 @@ func runBuilder(cfg *common.Config, rec *common.Recorder, idx uint64, rng *commo
 			default:
 				s.setRoot()
 			}
-			if s.err == nil && rng.Chance(1, 15) {
+			if s.err == nil && rng.Chance(1, 15) && cfg.Prop == "C04" {
 				if mis = s.checkAll(); mis != nil {
 					stage = "checkpoint"
 					return
@@ -729,8 +729,12 @@ func runBuilder(cfg *common.Config, rec *common.Recorder, idx uint64, rng *commo
 			}
 		}
 		stage = "final-readback"
-		if mis = s.checkAll(); mis != nil {
-			return
+		if cfg.Prop == "C04" {
+			// C05 judges only the serialised bytes (with an independent
+			// decoder), so it must not stop at a read-back mismatch.
+			if mis = s.checkAll(); mis != nil {
+				return
+			}
 		}
 	})
 	rec.Count("arena_"+aname[:4], 1)
